@@ -4,15 +4,15 @@
 #ifndef VERIF_C11_DECODE_H
 #define VERIF_C11_DECODE_H
 
-enum { H_YMD, H_YWD, H_YD, H_YMCW, H_DAISY, H_SEXY, H_SEXYFMT, NHELD };
-static const char *const held_name[NHELD] = {"ymd", "ywd", "yd", "ymcw", "daisy", "epoch@", "epoch%s"};
+enum { H_YMD, H_YWD, H_YD, H_YMCW, H_DAISY, H_SEXY, H_SEXYFMT, H_BIZDA, NHELD };
+static const char *const held_name[NHELD] = {"ymd", "ywd", "yd", "ymcw", "daisy", "epoch@", "epoch%s", "bizda"};
 /* input format handed to the parser (NULL: the standard parser, as the tools use without -i) */
-static const char *const held_ifmt[NHELD] = {NULL, NULL, "%Y-%jT%T", NULL, NULL, NULL, "%s"};
+static const char *const held_ifmt[NHELD] = {NULL, NULL, "%Y-%jT%T", NULL, NULL, NULL, "%s", NULL};
 /* output format (NULL: the tool's default for the held value); year-day values print
  * without their time by default, day counts print as a number, so both get an explicit one */
-static const char *const held_ofmt[NHELD] = {NULL, NULL, "%Y-%jT%T", NULL, "%FT%T", NULL, NULL};
+static const char *const held_ofmt[NHELD] = {NULL, NULL, "%Y-%jT%T", NULL, "%FT%T", NULL, NULL, "%FT%T"};
 /* how the printed text is laid out */
-static const int held_olayout[NHELD] = {H_YMD, H_YWD, H_YD, H_YMCW, H_YMD, H_YMD, H_YMD};
+static const int held_olayout[NHELD] = {H_YMD, H_YWD, H_YD, H_YMCW, H_YMD, H_YMD, H_YMD, H_YMD};
 
 /* text of (rd, sod) in representation H; sod may be 86400 (T24:00:00) for civil texts */
 static int
@@ -36,6 +36,13 @@ held_text(int h, int rd, int sod, char *buf, size_t bsz)
 		return 1;
 	case H_YMCW:
 		snprintf(buf, bsz, "%04d-%02d-%02d-%02dT%02d:%02d:%02d", p->y, p->m, p->mcnt, p->wd, H, M, S);
+		return 1;
+	case H_BIZDA:
+		/* business days only: a weekend has no name in this calendar; printed with %FT%T */
+		if (!p->isbd) {
+			return 0;
+		}
+		snprintf(buf, bsz, "%04d-%02d-%02dbT%02d:%02d:%02d", p->y, p->m, p->bd, H, M, S);
 		return 1;
 	case H_SEXY:
 		snprintf(buf, bsz, "@%lld", (long long)p->unixd * 86400LL + sod);
